@@ -289,6 +289,20 @@ func c06Case(run *evid.Run, i int, j *Journal) {
 			} else if fresh.Len() != re.Len() {
 				run.Violate("C06/read-back-not-mergeable", det("codec", h.Codec, "loader", loader), wit(fmt.Sprintf("fresh<-r%d read back", r)), "fresh replica got %d of %d entries", fresh.Len(), re.Len())
 			}
+			// ... and so is a PARTIAL log (the newest n entries, loaded with a length limit): its oldest entries point at
+			// entries it does not hold - which makes none of them less mergeable
+			if hd := l.Heads().Slice(); len(hd) >= 1 && l.Len() >= 3 && h.Codec != "pb" {
+				n := 1 + rng.Intn(l.Len()-1)
+				if part, err := x.W.LoadHash(hd[0].GetHash(), x.Writer[r], &hx.LoadOpts{Length: &n}); err == nil && part != nil && part.Len() > 0 {
+					f2 := x.W.NewLog(0)
+					run.Count("partial_logs_merged_into_a_fresh_replica", 1)
+					if _, err := f2.Join(part, -1); err != nil {
+						run.Violate("C06/read-back-not-mergeable", det("codec", h.Codec, "loader", "hash", "partial", true), wit(fmt.Sprintf("fresh<-newest %d of r%d", n, r)), "a partial log (newest %d of %d honestly appended entries) cannot be merged into a fresh permissive replica: %v", n, l.Len(), err)
+					} else if f2.Len() != part.Len() {
+						run.Violate("C06/read-back-not-mergeable", det("codec", h.Codec, "loader", "hash", "partial", true), wit(fmt.Sprintf("fresh<-newest %d of r%d", n, r)), "fresh replica got %d of the %d entries of a partial log", f2.Len(), part.Len())
+					}
+				}
+			}
 		}
 	}
 	if h.Codec != "cbor" {
@@ -545,6 +559,21 @@ func c06Case(run *evid.Run, i int, j *Journal) {
 			}
 			// "observably unchanged" includes what the log does next: the next append must be exactly the
 			// entry a twin that never saw the rejected merge appends (same predecessors, same clock)
+			if pol.nth == 0 && round%2 == 1 {
+				// ... and the next MERGE: an unrelated one-entry log merged into both must leave both in the same state (a
+				// rejected merge that left a trace in an index nobody can see shows here: the log drops its own head)
+				extra := x.W.NewLog((1 + round) % len(x.W.Idents))
+				if _, err := extra.Append(x.W.Ctx, []byte(fmt.Sprintf("unrelated-%d-%d", i, round)), nil); err == nil {
+					_, ja := dst.Join(extra, -1)
+					_, jb := twin.Join(extra, -1)
+					run.Count("merges_after_rejected_merge_compared_with_twin", 1)
+					oa, ob := hx.Observe(dst), hx.Observe(twin)
+					if (ja == nil) != (jb == nil) || !model.SameKeys(oa.Set, ob.Set) || !model.EqualAsSets(oa.Heads, ob.Heads) || !model.EqualAsSets(oa.Values, ob.Values) {
+						run.Violate("C06/rejected-merge-changed-behaviour", d, wit(desc), "after a rejected merge, merging an unrelated one-entry log gave (err %v) %d entries / %d values / heads %v; on a twin that never saw the rejected merge (err %v) %d entries / %d values / heads %v (%s)",
+							ja, len(oa.Set), len(oa.Values), hx.SortedShorts(oa.Heads), jb, len(ob.Set), len(ob.Values), hx.SortedShorts(ob.Heads), desc)
+					}
+				}
+			}
 			if pol.nth == 0 { // the call-counting policy would diverge between the twins
 				probe := []byte(fmt.Sprintf("probe-%d-%d", i, round))
 				e1, err1 := dst.Append(x.W.Ctx, probe, nil)
